@@ -249,3 +249,90 @@ Section SeqStack.
     rewrite ingest_l_all_settled_noop; [reflexivity|]. intros r Hr. rewrite Hext. apply settled_app. now apply (Hset l).
   Qed.
 End SeqStack.
+
+(* ================================================================ the "if" direction over histories: fresh identifiers *)
+Lemma tracked_snoc_iff st e r : tracked (st ++ [e]) r = tracked st r || same_key (e_reg e) r.
+Proof. unfold tracked. rewrite existsb_app. cbn. now rewrite orb_false_r. Qed.
+
+Section Fresh.
+  Variable select : bytes -> N -> N -> bool -> option ipraw.
+  Variable params_ok : N -> N -> option N -> bool.
+  Variable dst_port : bytes -> N -> N -> option N -> bool -> option N.
+  Variable geoip_ok : ipraw -> bool.
+  Variable cc : bytes -> option bytes.
+  Variable live : ipraw -> N -> bool.
+
+  Notation process' := (process select params_ok dst_port geoip_ok cc live).
+  Notation process_all' := (process_all select params_ok dst_port geoip_ok cc live).
+  Notation new_reg' := (new_reg select params_ok dst_port geoip_ok).
+
+  (* the draft registrations a message yields on this station *)
+  Definition drafts_of (cfg : config) (w : wrapper) : list reg :=
+    match parse_reg_message select params_ok dst_port geoip_ok cfg w with Ok l => l | _ => [] end.
+
+  (* whatever is tracked was tracked before or is (up to its identifier) the registration just handed to ingest *)
+  Lemma ingest_tracked_origin cfg st r0 r :
+    tracked (fst (ingest cc live cfg st r0)) r = true -> tracked st r = true \/ same_key r0 r = true.
+  Proof.
+    pose proof (ingest_outcome cc live cfg st r0) as O.
+    inversion O; cbn [fst]; auto; rewrite tracked_snoc_iff; cbn [e_reg]; rewrite ?same_key_set_covert_l;
+      intro Hx; apply orb_true_iff in Hx; tauto.
+  Qed.
+
+  Lemma ingest_all_tracked_origin cfg l : forall st r,
+    tracked (fst (ingest_all cc live cfg st l)) r = true -> tracked st r = true \/ exists r0, In r0 l /\ same_key r0 r = true.
+  Proof.
+    induction l as [|r1 l IH]; intros st r; cbn [ingest_all]; [auto|].
+    pose proof (ingest_tracked_origin cfg st r1 r) as H1.
+    destruct (ingest cc live cfg st r1) as [st1 e1]. cbn [fst] in H1. specialize (IH st1 r).
+    destruct (ingest_all cc live cfg st1 l) as [st2 e2]. cbn [fst] in *.
+    intro H. destruct (IH H) as [H'|(r0 & Hin & Hk)].
+    - destruct (H1 H') as [?|?]; [auto|]. right. exists r1. split; [now left|auto].
+    - right. exists r0. split; [now right|auto].
+  Qed.
+
+  Lemma process_all_tracked_origin cfg ws : forall st r,
+    tracked (fst (process_all' cfg st ws)) r = true ->
+    tracked st r = true \/ exists w0 r0, In w0 ws /\ In r0 (drafts_of cfg w0) /\ same_key r0 r = true.
+  Proof.
+    induction ws as [|w ws IH]; intros st r; cbn [process_all]; [auto|].
+    assert (H1 : tracked (fst (process' cfg st w)) r = true -> tracked st r = true \/ exists r0, In r0 (drafts_of cfg w) /\ same_key r0 r = true).
+    { unfold process, drafts_of. destruct (parse_reg_message select params_ok dst_port geoip_ok cfg w) as [l|e|]; auto.
+      apply ingest_all_tracked_origin. }
+    destruct (process' cfg st w) as [st1 e1]. cbn [fst] in H1. specialize (IH st1 r).
+    destruct (process_all' cfg st1 ws) as [st2 e2]. cbn [fst] in *.
+    intro H. destruct (IH H) as [H'|(w0 & r0 & Hin & Hd & Hk)].
+    - destruct (H1 H') as [?|(r0 & Hd & Hk)]; [auto|]. right. exists w, r0. split; [now left|auto].
+    - right. exists w0, r0. split; [now right|auto].
+  Qed.
+
+  (* The "if" direction with the table-state hypothesis discharged into a condition on the INPUTS of the history: after
+     any history of messages from the empty table, a message all of whose requested families can be built yields an
+     announced (connectable) registration for every requested family that meets the listed conditions, provided no
+     earlier draft registration -- of an earlier message, or the IPv4 sibling of this one -- used its identifier
+     (phantom, transport, shared secret). *)
+  Lemma if_direction_fresh_identifier cfg ws w p v6 r :
+    let st := fst (process_all' cfg [] ws) in
+    w_payload w = Some p -> message_ok select params_ok dst_port geoip_ok cfg w p = true -> want cfg w p v6 = true ->
+    new_reg' cfg w p v6 = Ok r ->
+    listed_conditions cc live cfg r = true ->
+    (forall w0 r0, In w0 ws -> In r0 (drafts_of cfg w0) -> same_key r0 r = false) ->
+    (v6 = true -> forall r4, new_reg' cfg w p false = Ok r4 -> same_key r4 r = false) ->
+    exists r', In (Announce r') (snd (process' cfg st w)).
+  Proof.
+    cbn zeta. intros Hp Hok Hw En Hl Hfresh Hsib.
+    apply (if_direction_partial select params_ok dst_port geoip_ok cc live cfg _ w p v6 r Hp Hok Hw En).
+    assert (Ht0 : tracked (fst (process_all' cfg [] ws)) r = false).
+    { destruct (tracked (fst (process_all' cfg [] ws)) r) eqn:E; [|reflexivity]. exfalso.
+      destruct (process_all_tracked_origin cfg ws [] r E) as [H|(w0 & r0 & Hin & Hd & Hk)]; [discriminate|].
+      rewrite (Hfresh w0 r0 Hin Hd) in Hk. discriminate. }
+    assert (Ht : tracked (state_before select params_ok dst_port geoip_ok cc live cfg (fst (process_all' cfg [] ws)) w p v6) r = false).
+    { unfold state_before. destruct (v6 && want cfg w p false) eqn:Ev; [|exact Ht0].
+      destruct (new_reg' cfg w p false) as [r4|e|] eqn:E4; try exact Ht0.
+      destruct (tracked (fst (ingest cc live cfg (fst (process_all' cfg [] ws)) r4)) r) eqn:E; [|reflexivity]. exfalso.
+      apply andb_true_iff in Ev as [-> _].
+      destruct (ingest_tracked_origin cfg _ r4 r E) as [H|H]; [congruence|]. rewrite (Hsib eq_refl r4 eq_refl) in H. discriminate. }
+    unfold listed_conditions in Hl. unfold admissible. rewrite Ht. cbn [negb].
+    apply andb_true_iff in Hl as [Hl H5]. apply andb_true_iff in Hl as [Hl H4]. rewrite Hl, H4, H5. reflexivity.
+  Qed.
+End Fresh.
